@@ -41,7 +41,7 @@ func join(vals []uint64, w int32) (r []uint64, p string) {
 			p = fmt.Sprint("panic: ", e)
 		}
 	}()
-	return bitmap.Join(vals, w), ""
+	return bitmap.Join(gen.DirtyU64(vals, 3), w), "" // a window into a larger, non-zero buffer
 }
 
 func getw(bm []uint64, i, w int32) (r uint64, p bool) {
@@ -394,7 +394,7 @@ func c14Long(c *mc.Ctx) {
 }
 
 func c14BigVals(l int) []uint64 {
-	v := make([]uint64, l)
+	v := gen.DirtyU64(make([]uint64, l), 3)
 	for i := range v {
 		v[i] = uint64(i+1) * 0x9e3779b97f4a7c15
 	}
